@@ -104,7 +104,7 @@ pub fn run(ctx: &Ctx) -> i32 {
                         case: case(),
                         sig: format!("law{}:mode{}", law, m),
                         detail: format!("{} pixels break a law; first: {} : {}", nbad, describe_px(*m, sp.b[k], sp.s[k], sp.lo, sp.co), msg),
-                        bytes: Some(sprite(*m, &Spec { w: 1, h: 1, b: vec![sp.b[k]], s: vec![sp.s[k]], lo: sp.lo, co: sp.co, via_tilemap: sp.via_tilemap, flags: sp.flags, pad: 0 })),
+                        bytes: Some(sprite(*m, &Spec { w: 1, h: 1, b: vec![sp.b[k]], s: vec![sp.s[k]], lo: sp.lo, co: sp.co, via_tilemap: sp.via_tilemap, flags: sp.flags, pad: 0, hflags: 1 })),
                         extra: json!({"mode": m, "backdrop": sp.b[k].to_le_bytes(), "source": sp.s[k].to_le_bytes(), "layer_opacity": sp.lo, "cel_opacity": sp.co, "law": law}),
                     });
                 }
